@@ -5,6 +5,8 @@ import (
 	"go/ast"
 	"go/types"
 	"sort"
+	"strings"
+	"sync"
 )
 
 // Var binding: either a direct symbolic value, or (for address-taken locals) a heap cell reference.
@@ -54,6 +56,26 @@ func (s *State) clone() *State {
 
 // heap arrays -------------------------------------------------------------
 
+// globalHeapSorts: heap array names are global and their sorts are the same in every verification context; a context
+// that has not touched a heap yet (but calls a function that writes it) looks the sort up here.
+var globalHeapSorts sync.Map
+
+func (c *Ctx) heapSortOf(name string) (Sort, bool) {
+	if s, ok := c.heapSort[name]; ok {
+		return s, true
+	}
+	if strings.HasPrefix(name, "T!") {
+		c.heapSort[name] = ArrSort(SStr, SInt)
+		return c.heapSort[name], true
+	}
+	if v, ok := globalHeapSorts.Load(name); ok {
+		c.ensureSortDeclared(v.(Sort))
+		c.heapSort[name] = v.(Sort)
+		return v.(Sort), true
+	}
+	return "", false
+}
+
 func (c *Ctx) heapInit(name string) *Term { return c.heapInitE(name, "") }
 
 func (c *Ctx) heapInitE(name, epoch string) *Term {
@@ -79,6 +101,7 @@ func (c *Ctx) heapGet(st *State, name string, s Sort) *Term {
 		}
 	} else {
 		c.heapSort[name] = s
+		globalHeapSorts.Store(name, s)
 	}
 	if t, ok := st.heap[name]; ok {
 		return t
@@ -89,6 +112,7 @@ func (c *Ctx) heapGet(st *State, name string, s Sort) *Term {
 func (c *Ctx) heapSet(st *State, name string, t *Term) {
 	if _, ok := c.heapSort[name]; !ok {
 		c.heapSort[name] = t.Sort
+		globalHeapSorts.Store(name, t.Sort)
 	}
 	if t.Op == "ite" {
 		// keep heap terms free of ite at the top (they are used inside quantifier patterns)
